@@ -82,7 +82,8 @@ theorem heuOutName_eq (nm : List Nat) (h : Heu) : heuOutName nm h = heuText nm h
     the extensions on, the answer sets of the given and of the emitted program correspond one to one (`E` / restriction, as in C02), and for every
     `#heuristic` directive on an atom that occurs in the program the emitted program contains an output directive
     `_heuristic(name,modifier,bias,priority)` — the same modifier, bias and priority — on an atom that is true under `E X` exactly when the
-    directive's condition holds under `X`: the modification is active in corresponding answer sets, and only there.  (`C08_table_read` /
+    directive's condition holds under `X` — the modification is active in corresponding answer sets, and only there — and `name` is a name under which the
+    emitted program shows the atom `a` is mapped to (a display name given by an output directive, or the generated `_atom(n)`).  (`C08_table_read` /
     `C08_heuristics_resolved`: the smodels reader turns that symbol back into a heuristic directive on the atom its `name` denotes.) -/
 theorem C08_heuristics_active (inc : Bool) (ds : List Call) (hx : ∀ d ∈ ds, PlainOk d) (hE : extCalls ds = []) :
     ∃ E : I → I,
@@ -90,9 +91,10 @@ theorem C08_heuristics_active (inc : Bool) (ds : List Call) (hx : ∀ d ∈ ds, 
       (∀ X', Stable (rulesOf (convert true (stepCalls inc ds)).out) X' → X' 1 = false →
         Stable (progOf ds) (restrict (convert true (stepCalls inc ds)) X') ∧ E (restrict (convert true (stepCalls inc ds)) X') = X') ∧
       (∀ a t b p cond, Call.heuristic a t b p cond ∈ ds → a ∈ domOf (preEnd true inc ds) →
-        ∃ nm n, Call.output (heuText nm t b p) [(n : Int)] ∈ (convert true (stepCalls inc ds)).out ∧
-          ∀ X, bodyR (E X) (E X) (.normal [(n : Int)]) = bodyR X X (.normal cond)) := by
-  obtain ⟨defs, h1, q1, x1⟩ := JHX.pre true inc ds hx
+        ∃ nm n sm, Call.output (heuText nm t b p) [(n : Int)] ∈ (convert true (stepCalls inc ds)).out ∧
+          (∀ X, bodyR (E X) (E X) (.normal [(n : Int)]) = bodyR X X (.normal cond)) ∧
+          (a, sm) ∈ (abs (convert true (stepCalls inc ds))).ids ∧ Call.output nm [(sm : Int)] ∈ (convert true (stepCalls inc ds)).out) := by
+  obtain ⟨defs, h1, q1, x1, y1⟩ := JHX.pre true inc ds hx
   have hE' : (preEnd true inc ds).ext = false ∨ (preEnd true inc ds).externs = [] := by
     right; rw [x1.r, run_regs_nil ds {} hE]
   obtain ⟨f1, f2, f3⟩ := flushMinimize_flags (preEnd true inc ds)
@@ -124,12 +126,14 @@ theorem C08_heuristics_active (inc : Bool) (ds : List Call) (hx : ∀ d ∈ ds, 
       unfold heusOf; simp only [List.mem_filterMap]; exact ⟨_, hmem, rfl⟩
     obtain ⟨e, he, e1, e2, e3, e4, hrep⟩ := HRel.mem _ _ q1 _ hin
     simp only at e1 e2 e3 e4 hrep
-    obtain ⟨nm, hout⟩ := flush_heu_outs (preEnd true inc ds) h1.nofail h1.inv hshape e he (by rw [e1]; exact hdom)
-    refine ⟨nm, e.cond, ?_, ?_⟩
+    obtain ⟨nm, sm, hid, hout, hname⟩ := flush_heu_named (preEnd true inc ds) h1.nofail h1.inv y1 hshape e he (by rw [e1]; exact hdom)
+    refine ⟨nm, e.cond, sm, ?_, ?_, ?_, ?_⟩
     · rw [convert_step]
       rw [heuOutName_eq, e2, e3, e4] at hout
       exact hout
     · intro X
       exact rep_val hj X e.cond cond (hrep.mono hst h1.inv (fun d hd => hd))
+    · rw [convert_step, ← e1]; exact hid
+    · rw [convert_step]; exact hname
 
 end PotasscoVerif.C08
